@@ -193,9 +193,15 @@ def gather_inputs(rng, tier):
         pcs = keep
     for cid, e, rho in pcs:
         items.append(dict(id=cid, sql=expr_statement(G.Renderer(rho).render(0, e)), src="pair", e=e))
+    # unary signs against every operator, sign chains (a sign under a sign must never be written as a comment opener)
+    if hasattr(G, "neg_cases"):
+        for cid, e, rho in G.neg_cases():
+            items.append(dict(id=cid, sql=expr_statement(G.Renderer(rho).render(0, e)), src="pair", e=e))
     n_rand = 400 if tier == "quick" else 6000
     for i in range(n_rand):
         e = G.rand_expr(rng, rng.choice([2, 3, 4, 6, 8, 12, 20, 30]))
+        if hasattr(G, "with_signs") and rng.random() < 0.3:
+            e = G.with_signs(rng, e, 0.25)
         rho = G.rand_rho(rng, e, rng.choice([0.0, 0.1, 0.3]))
         if G.pdepth(0, e, rho) + 3 > 95:
             continue
@@ -251,6 +257,9 @@ EXTRA = [
     "SELECT a FROM t UNION ALL SELECT b FROM u EXCEPT SELECT c FROM v",
     "select a from t where a = 1 and b like 'x' or c is not null order by a desc nulls last",
     "SELECT a FROM t WHERE a = TRUE AND b = false AND c IS NULL",
+    "SELECT - -a, -(-1), -(+a), +(-a), - - -a, a - -b, a - (-b), -(a - b), -a::int, (-a)::int FROM t",
+    "SELECT a FROM t WHERE x BETWEEN -(-1) AND - -5 AND y IN (-1, -(-2)) AND -a < - -b",
+    "SELECT a::numeric::int, CAST(CAST(a AS text) AS int), (a::int)::text::varchar(10) FROM t",
     "SELECT a" + "::int" * 120 + " FROM t",
     "SELECT $$it\u2019s$$, '\\'x', 'a''b' FROM t",
     "SELECT a FROM t WHERE b = ARRAY[]::varchar[]",
